@@ -5,7 +5,7 @@ use crate::E;
 use biodivine_boolean_functions::bdd::Bdd;
 use biodivine_boolean_functions::expressions::{Expression, ExpressionNode};
 use biodivine_boolean_functions::table::TruthTable;
-use biodivine_boolean_functions::traits::BooleanFunction;
+use biodivine_boolean_functions::traits::{BooleanFunction, Equality, Implication};
 use std::collections::{BTreeMap, BTreeSet};
 use std::io::Write;
 
@@ -371,6 +371,9 @@ pub fn gen_c01(cx: &mut Ctx) {
     for e in wide_exprs(&mut cx.rng, &names(&["a", "b", "c", "x_10"]), true) {
         conv_chain(cx, "C01", &Val::E(e), 2, true);
     }
+    for e in shared_exprs().into_iter().chain(shaped_exprs()) {
+        conv_chain(cx, "C01", &Val::E(e), 2, true);
+    }
     let pool = pool_names();
     let n_random = cx.scale * if cx.thorough { 20000 } else { 1500 };
     for _ in 0..n_random {
@@ -412,6 +415,12 @@ pub fn gen_c01(cx: &mut Ctx) {
 pub fn gen_c02(cx: &mut Ctx) {
     let universe = names(&["a", "b", "c", "zz"]);
     let assignments = partial_assignments(&universe);
+    for e in shared_exprs().into_iter().chain(shaped_exprs()) {
+        for v in assignments.iter().step_by(7) {
+            cx.emit("C02", "eval", &[Arg::F(Val::E(e.clone())), Arg::V(v.clone()), Arg::O(false)], true);
+            cx.emit("C02", "evalc", &[Arg::F(Val::E(e.clone())), Arg::V(v.clone())], true);
+        }
+    }
     for e in wide_exprs(&mut cx.rng, &names(&["a", "b", "c"]), true) {
         for x in reps_of(&e) {
             for _ in 0..4 {
@@ -528,6 +537,9 @@ pub fn gen_c03(cx: &mut Ctx) {
             let nt = va != vb && va.intersection(&vb).next().is_some();
             for op in ["and", "or", "xor", "imply", "iff"] {
                 cx.emit("C03", op, &[Arg::F(Val::E(a.clone())), Arg::F(Val::E(b.clone()))], nt);
+            }
+            for op in ["and.own", "or.own", "xor.own", "imply.own", "iff.own"] {
+                cx.emit("C03", op, &[Arg::F(Val::E(a.clone())), Arg::F(Val::E(b.clone()))], true);
             }
         }
         cx.emit("C03", "not", &[Arg::F(Val::E(a.clone()))], false);
@@ -689,6 +701,28 @@ fn emit_cmp(cx: &mut Ctx, a: &Val, b: &Val, nt: bool, kind: usize) {
 // ================================================================================================
 // C05, C06, C07
 
+/// expressions in which one compound node is shared between several places, also under different
+/// numbers of negations (`iff`, `xor` and `imply` of compound operands produce such objects)
+pub fn shared_exprs() -> Vec<E> {
+    let (a, b, c, d) = (lit("a"), lit("b"), lit("c"), lit("d"));
+    let x = or(vec![a.clone(), b.clone()]);
+    let y = and(vec![c.clone(), not(a.clone())]);
+    let t = or(vec![a.clone(), and(vec![b.clone(), c.clone()])]);
+    vec![
+        and(vec![x.clone(), not(x.clone())]),
+        or(vec![not(x.clone()), x.clone()]),
+        and(vec![not(not(x.clone())), x.clone(), not(x.clone())]),
+        x.clone().iff(y.clone()),
+        x.clone() ^ y.clone(),
+        x.clone().imply(x.clone()),
+        and(vec![t.clone(), c.clone()]).imply(and(vec![t.clone(), d.clone()])),
+        not(and(vec![x.clone(), or(vec![y.clone(), not(x.clone())])])),
+        or(vec![and(vec![x.clone(), y.clone()]), not(and(vec![x.clone(), y.clone()]))]),
+        (x.clone() ^ y.clone()) ^ (x.clone().iff(t.clone())),
+        not(t.clone()).iff(t.clone()),
+    ]
+}
+
 /// expression shapes the minterm families never contain: stacked negations, constants, one-operand
 /// and empty n-ary nodes, the same variable in both polarities
 fn shaped_exprs() -> Vec<E> {
@@ -711,6 +745,11 @@ fn shaped_exprs() -> Vec<E> {
         not(cst(true)),
         not(not(cst(false))),
         or(vec![and(vec![a.clone(), not(not(b.clone()))]), and(vec![not(a.clone()), c.clone()])]),
+        and(vec![not(a.clone()), and(vec![a.clone(), b.clone()])]),
+        and(vec![and(vec![a.clone(), b.clone()]), not(a.clone())]),
+        or(vec![and(vec![not(a.clone()), and(vec![a.clone(), b.clone()])]), and(vec![not(b.clone()), c.clone()])]),
+        or(vec![a.clone(), or(vec![not(a.clone()), b.clone()])]),
+        and(vec![b.clone(), and(vec![c.clone(), and(vec![not(b.clone()), a.clone()])])]),
     ]
 }
 
@@ -718,7 +757,7 @@ pub fn gen_c05(cx: &mut Ctx) {
     {
         let keys = names(&["a", "b", "c", "zz"]);
         let assignments = partial_assignments(&keys);
-        for e in shaped_exprs() {
+        for e in shaped_exprs().into_iter().chain(shared_exprs()) {
             for r in &assignments {
                 cx.emit("C05", "restrict", &[Arg::F(Val::E(e.clone())), Arg::V(r.clone())], true);
             }
@@ -858,6 +897,11 @@ pub fn gen_c08(cx: &mut Ctx) {
         values.push((names(&[v]), vec![false, true]));
         values.push((names(&[v]), vec![true, false]));
     }
+    // replacements that merely declare an input (also one that is a key of the map)
+    values.push((names(&["b"]), vec![true, true]));
+    values.push((names(&["a", "c"]), vec![false, true, false, true]));
+    values.push((names(&["b", "c"]), vec![false, true, false, true]));
+    values.push((names(&["b", "z"]), vec![false, false, true, true]));
     if cx.thorough {
         for (x, y) in [("a", "b"), ("b", "c"), ("a", "c"), ("c", "z")] {
             for bits in [[false, false, false, true], [false, true, true, false], [false, true, true, true]] {
@@ -980,6 +1024,11 @@ pub fn gen_c09(cx: &mut Ctx) {
             cx.emit("C09", op, &[Arg::F(d.clone())], true);
         }
     }
+    for e in shared_exprs().into_iter().chain(shaped_exprs()) {
+        for op in ["inputs", "essential", "degree", "essdegree"] {
+            cx.emit("C09", op, &[Arg::F(Val::E(e.clone()))], true);
+        }
+    }
     let pads: Vec<Vec<String>> = vec![names(&[]), names(&["p"]), names(&["0", "p"])];
     for ns in small_name_sets(cx.thorough) {
         for bits in all_functions(ns.len()) {
@@ -1043,6 +1092,9 @@ pub fn gen_c10(cx: &mut Ctx) {
     }
     for d in derived_objects(cx) {
         cx.emit("C10", "enum", &[Arg::F(d)], true);
+    }
+    for e in shaped_exprs().into_iter().chain(shared_exprs()) {
+        cx.emit("C10", "enum", &[Arg::F(Val::E(e))], true);
     }
     // constants with zero variables
     for b in [false, true] {
@@ -1127,6 +1179,9 @@ pub fn gen_c11(cx: &mut Ctx) {
         emit_nf(cx, &e);
     }
     for e in wide_exprs(&mut cx.rng, &names(&["a", "b", "c"]), false) {
+        emit_nf(cx, &e);
+    }
+    for e in shared_exprs().into_iter().chain(shaped_exprs()) {
         emit_nf(cx, &e);
     }
     let ns = names(&["a", "b", "c", "x_10"]);
